@@ -366,6 +366,7 @@ func ltxKind(rel string) string {
 // "v? snapshot-fail <k>" / "v? compact-fail <lvl> <k>" must be answered with err (the upload stream
 // is broken by the victim's wrapper after k bytes); around them the runner applies the oracle
 // "a failed write never removes or alters a previously listed replica file".
+//
 //	rmmeta       remove the meta directory (victim must be down)
 //	save / rollback   copy db, db-wal and the meta directory aside / put them back (victim down)
 type Step struct {
